@@ -162,10 +162,12 @@ class Sample(object):
                 A = activity(el, self.mass*frac, environment, exposure, rest_times)
                 self._accumulate(A)
             else:
-                for iso in el.isotopes:
-                    iso_mass = self.mass*frac*abundance(el[iso])*0.01
+                # An ion of a natural element activates through the isotopes of its element
+                natural = el.element if core.ision(el) else el
+                for iso in natural.isotopes:
+                    iso_mass = self.mass*frac*abundance(natural[iso])*0.01
                     if iso_mass:
-                        A = activity(el[iso], iso_mass, environment, exposure, rest_times)
+                        A = activity(natural[iso], iso_mass, environment, exposure, rest_times)
                         self._accumulate(A)
 
     def decay_time(self, target):
